@@ -27,6 +27,9 @@ pub enum Op {
     VecReshape(i32, i32),
     HcatSelf,
     VcatSelf,
+    /// hcat / vcat with a *different* matrix of k columns / rows (labels 40.. / 60..)
+    HcatOther(usize),
+    VcatOther(usize),
     Hrepeat2,
     Vrepeat2,
     RowAsVec(usize),
@@ -107,6 +110,25 @@ fn model(s: &MS, op: &Op) -> Option<MS> {
             d.extend_from_slice(&s.d);
             MS { r: 2 * r, c, d }
         }
+        Op::HcatOther(k) => {
+            let mut d = Vec::new();
+            for i in 0..r {
+                for j in 0..c {
+                    d.push(at(i, j));
+                }
+                for j in 0..*k {
+                    d.push(40 + (i * k + j) as i16);
+                }
+            }
+            MS { r, c: c + k, d }
+        }
+        Op::VcatOther(k) => {
+            let mut d = s.d.clone();
+            for t in 0..k * c {
+                d.push(60 + t as i16);
+            }
+            MS { r: r + k, c, d }
+        }
         Op::RowAsVec(i) => {
             if *i >= r {
                 return None;
@@ -174,6 +196,14 @@ fn apply(s: &MS, op: &Op) -> (Result<Matrix, String>, Option<Matrix>) {
         Op::VecReshape(a, b) => (guard(|| m.data.reshape(*a, *b)), None),
         Op::HcatSelf => (guard(|| m.hcat(m.clone())), None),
         Op::VcatSelf => (guard(|| m.vcat(m.clone())), None),
+        Op::HcatOther(k) => {
+            let o = Matrix { data: Vector::new((0..s.r * k).map(|t| 40.0 + t as f64).collect::<Vec<f64>>()), nrows: s.r, ncols: *k };
+            (guard(|| m.hcat(o.clone())), None)
+        }
+        Op::VcatOther(k) => {
+            let o = Matrix { data: Vector::new((0..s.c * k).map(|t| 60.0 + t as f64).collect::<Vec<f64>>()), nrows: *k, ncols: s.c };
+            (guard(|| m.vcat(o.clone())), None)
+        }
         Op::Hrepeat2 => (guard(|| m.hrepeat(2)), None),
         Op::Vrepeat2 => (guard(|| m.vrepeat(2)), None),
         Op::RowAsVec(i) => (guard(|| m.get_row_as_vector(*i).to_matrix()), None),
@@ -220,7 +250,8 @@ fn opname(op: &Op) -> &'static str {
         Op::ReshapeMut(..) => "reshape_mut",
         Op::VecReshape(..) => "Vector::reshape",
         Op::HcatSelf => "hcat",
-        Op::VcatSelf => "vcat",
+        Op::VcatSelf | Op::VcatOther(_) => "vcat",
+        Op::HcatOther(_) => "hcat",
         Op::Hrepeat2 => "hrepeat",
         Op::Vrepeat2 => "vrepeat",
         Op::RowAsVec(_) => "get_row_as_vector",
@@ -355,6 +386,17 @@ fn programs(run: &Run) {
         if 2 * size <= CAP {
             out.extend([Op::HcatSelf, Op::VcatSelf, Op::Hrepeat2, Op::Vrepeat2]);
         }
+        // concatenation with a different matrix (other widths / heights), on small unlabelled-by-40 objects
+        if size <= 6 && s.d.iter().all(|v| v.abs() < 40) {
+            for k in [1usize, 2] {
+                if s.r * (s.c + k) <= CAP && s.c != k {
+                    out.push(Op::HcatOther(k));
+                }
+                if (s.r + k) * s.c <= CAP && s.r != k {
+                    out.push(Op::VcatOther(k));
+                }
+            }
+        }
         for i in 0..=s.r {
             out.push(Op::RowAsVec(i));
         }
@@ -428,8 +470,8 @@ fn programs(run: &Run) {
             }
         }
     };
-    let depth = run.tier.pick(8usize, 12usize);
-    let cap_states = run.tier.pick(400_000usize, 3_000_000usize);
+    let depth = run.tier.pick(7usize, 11usize);
+    let cap_states = run.tier.pick(1_000_000usize, 8_000_000usize);
     let visit = move |s: &MS, pf: &dyn Fn() -> Vec<Op>| invariant(run_s, s, &|| format!("{:?} from the initial matrix", pf()));
     let m = Seq { inits, acts: Arc::new(acts), step: Arc::new(step), visit: Some(Arc::new(visit)) };
     let st = explore(&m, Some(depth), Some(cap_states), Some(run.tier.pick(40, 600)));
